@@ -182,6 +182,28 @@ def run(ctx):
         rle = Rle.create_rle(seq)
         traces.append([dict(op='add', v=v) for v in seq] + _queries(rle, seq))
         meta.append(dict(kind='create_rle', seq=list(seq)))
+    # ... from every kind of iterable: ranges (empty, one value, counting down), lists, generators; and added to afterwards
+    for seq_obj in (range(0), range(5, 5), range(10, 0, 2), range(3, 4), range(0, 6), range(7, -5, -3), range(-2, 9, 4), [], [4], [2, 2, 2], (1, 3, 5, 9),
+                    (x for x in ()), (x * x for x in range(5))):
+        try:
+            if isinstance(seq_obj, (range, list, tuple)):
+                rle = Rle.create_rle(seq_obj)
+                vals_ = list(seq_obj)
+            else:
+                vals_ = list(seq_obj)
+                rle = Rle.create_rle(iter(vals_))
+            tr = [dict(op='add', v=v) for v in vals_] + _queries(rle, vals_)
+            extra = [vals_[-1] + 5, vals_[-1] + 10] if vals_ else [3, 4]
+            for v in extra:
+                rle.add(v)
+                tr.append(dict(op='add', v=v))
+            tr += _queries(rle, vals_ + extra)
+        except Exception as e:
+            ctx.fail('create_rle(%r) or a query on its result raised %s: %s' % (seq_obj, type(e).__name__, e), dict(seq=repr(seq_obj)), sig=dict(kind='create_rle'))
+            continue
+        traces.append(tr)
+        meta.append(dict(kind='create_rle', seq=vals_, source=type(seq_obj).__name__))
+        ctx.case(('create_rle', repr(seq_obj)), True)
     # (b) exhaustive record-triple sequences
     for n in range(0, maxrecs + 1):
         for steps in itertools.product([(dp, f) for dp in (10, 12) for f in (1, 2, 3)], repeat=n):
